@@ -84,8 +84,44 @@ def snapshot(name, geno, b):
     return linear.dsge_sx(geno.dna, b)
 
 
+def decider_state_scenario(h: Harness, rng):
+    """Mapping must not depend on what was mapped before: PI-grow keeps a flag on the decider object
+    which the first production choice resets only when it happens at expansion 0 -- with a CONCRETE
+    start symbol it never is.  One representation object, many genotypes, each mapped twice, in
+    sequence."""
+    C = gram.ClassSpec
+    spec = gram.Spec([C("A0", True, None), C("Leaf", False, 0, [("k", ("ann", "int", ("intRange", 0, 3)))]),
+                      C("Node", False, 0, [("l", ("cls", 0)), ("r", ("cls", 0))]),
+                      C("S", False, None, [("a", ("cls", 0)), ("b", ("cls", 0))])], 3, [1, 2])
+    b = gram.build(spec)
+    g = b.extract()
+    line_spec = gram.spec_sx(spec)
+    for d in (3, 4, 5):
+        for name, cls in (("GE", GE), ("SGE", SGE)):
+            shared = CountingSource(NativeRandomSource(rng.randrange(10**6)))
+            rep = cls(g, synth.make_decider("pigrow", d, shared, g), gene_length=64)
+            genos = [rep.create_genotype(shared) for _ in range(h.n(10, 40))]
+            first = {}
+            for rnd in range(2):
+                for gi, geno in enumerate(genos):
+                    st, p = safe(lambda: rep.genotype_to_phenotype(geno))
+                    res = sx(["ok", gram.canon(p, b)] if st == "ok" else ["err", p])
+                    dna = snapshot(name, geno, b)
+                    if rnd == 0:
+                        first[gi] = res
+                        h.agree(f"{name}.genotype_to_phenotype", ["map_ge" if name == "GE" else "map_sge", line_spec, ["pigrow", d], dna],
+                                ["ok", gram.canon(p, b)] if st == "ok" else ["err", p], nontrivial=True)
+                    elif res != first[gi]:
+                        h.fail(f"{name}.genotype_to_phenotype", "same-genotype-different-program",
+                               f"PI-grow, concrete start symbol, max depth {d}: genotype #{gi} mapped to {first[gi][:120]} first and to {res[:120]} "
+                               f"after other genotypes had been mapped", [sx(line_spec), name, d, sx(dna)])
+                        break
+            h.count("decider-state-scenarios")
+
+
 def run(h: Harness):
     rng = h.rng
+    decider_state_scenario(h, rng)
     for gi in range(h.n(40, 600)):
         refined = rng.random() < 0.5
         opts = {"ann": refined, "float": rng.random() < 0.3, "str": False}
@@ -93,6 +129,19 @@ def run(h: Harness):
         if not refined:
             for c in spec.classes:
                 c.fields = [(n, ("int" if isinstance(t, tuple) and t[0] == "ann" else t)) for n, t in c.fields]
+        if refined and rng.random() < 0.5:
+            # refinements whose range a single dSGE gene (0..1024) cannot cover
+            for c in spec.classes:
+                c.fields = [(n, (("ann", "int", ("intRange", rng.choice([0, 1, -70000]), rng.choice([5000, 65535, 10**6])))
+                                 if (isinstance(t, tuple) and t[0] == "ann" and t[1] == "int" and rng.random() < 0.6) else t))
+                            for n, t in c.fields]
+            h.count("wide-refined-ranges")
+        if rng.random() < 0.25:
+            # a CONCRETE start symbol: decider state (PI-grow's flag) is then not reset by the first choice
+            n = len(spec.classes)
+            spec.classes.append(gram.ClassSpec(f"S{n}", False, None, [("a", ("cls", 0)), ("b", ("cls", 0))][: rng.randint(1, 2)]))
+            spec.start = n
+            h.count("concrete-start-symbol")
         b = gram.build(spec)
         try:
             g = b.extract()
@@ -104,7 +153,7 @@ def run(h: Harness):
         h.count("refined-grammar" if refined else "unrefined-grammar")
         line_spec = gram.spec_sx(spec)
         d = mind + rng.choice([1, 2, 3, 4])
-        kind = rng.choice(["grow", "full", "pigrow"])
+        kind = rng.choice(["grow", "full", "pigrow", "pigrow"])
         seedv = rng.randrange(10**6)
 
         # GE / SGE: the decider is constructed with the shared source, as in the library's tests
